@@ -13,7 +13,7 @@ const SHELLS: [&str; 6] = ["fish", "zsh", "pwsh", "elvish", "nu", "bash"];
 #[derive(Clone, Debug)]
 struct TA { id: String, short: Option<char>, long: Option<String>, kind: u8, help: usize, pvs: Vec<(String, Option<usize>)> } // kind 0 flag 1 option 2 positional
 #[derive(Clone, Debug)]
-struct TC { name: String, about: Option<usize>, args: Vec<TA>, subs: Vec<TC> }
+struct TC { name: String, alias: Option<String>, about: Option<usize>, args: Vec<TA>, subs: Vec<TC> }
 
 /// slots are numbered; `kinds[i]` is what the slot is
 #[derive(Clone, Copy, Debug, PartialEq)]
@@ -41,12 +41,14 @@ fn gen_tc(rng: &mut Rng, depth: usize, name: String, kinds: &mut Vec<K>, shorts:
     }
     let nsubs = if depth >= 2 { 0 } else { rng.below(3) };
     let subs = (0..nsubs).map(|i| { let mut sh: Vec<char> = "abcdefgijkmnopqrstuwxyz".chars().collect(); gen_tc(rng, depth + 1, format!("{}s{i}", if depth == 0 { "".to_string() } else { format!("{name}-") }), kinds, &mut sh) }).collect();
-    TC { name, about, args, subs }
+    let alias = if depth > 0 && rng.chance(1, 3) { Some(format!("{name}-al")) } else { None };
+    TC { name, alias, about, args, subs }
 }
 
 fn build(tc: &TC, texts: &[String]) -> Command {
     let mut c = Command::new(tc.name.clone());
     if let Some(a) = tc.about { c = c.about(texts[a].clone()); }
+    if let Some(a) = &tc.alias { c = c.visible_alias(a.clone()); }
     for a in &tc.args {
         let mut x = Arg::new(a.id.clone()).help(texts[a.help].clone());
         if let Some(s) = a.short { x = x.short(s); }
@@ -82,7 +84,7 @@ pub fn run(o: &Opts) -> Report {
     let mut rep = Report::new("C17", "random command trees (depth <= 3, flags, options, positionals, possible values with help, subcommand about) x six generators x an assignment of adversarial strings (quotes of both kinds, backslashes, $(...), backticks, brackets, colons, newlines, typographic quotes, non-ASCII) to EVERY descriptive-text slot; tie: script(adversarial) == script(markers) with each marker replaced by the model's escaped text for that shell/slot, and the model scanner's quoting state at every marker is the slot's declared context; oracle: for every text, scanning the escaped text from the slot's context returns to that context without expansion (the instance of the theorem); bash: the script is byte-identical whatever the texts and passes `bash -n`; non-trivial = at least one slot text with a quote, backslash, $ or newline");
     let mut rng = Rng::new(o.seed ^ 0xC17);
     let n = if o.thorough() { 3000 } else { 250 };
-    struct Case { shell: &'static str, key: String, s_m: String, s_a: String, kinds: Vec<K>, texts: Vec<String>, esc_req: Vec<usize>, scan_req: Vec<(usize, usize)>, slotscan_req: Vec<usize> }
+    struct Case { shell: &'static str, key: String, s_m: String, s_a: String, kinds: Vec<K>, texts: Vec<String>, esc_req: Vec<usize>, scan_req: Vec<(usize, usize)>, slotscan_req: Vec<usize>, real_req: Vec<(usize, String, usize)> }
     let mut reqs: Vec<String> = vec![]; let mut cases: Vec<Case> = vec![];
     for ci in 0..n {
         let mut kinds = vec![];
@@ -115,7 +117,7 @@ pub fn run(o: &Opts) -> Report {
                 }
                 continue;
             }
-            let mut case = Case { shell, key, s_m: s_m.clone(), s_a, kinds: kinds.clone(), texts: texts.clone(), esc_req: vec![], scan_req: vec![], slotscan_req: vec![] };
+            let mut case = Case { shell, key, s_m: s_m.clone(), s_a, kinds: kinds.clone(), texts: texts.clone(), esc_req: vec![], scan_req: vec![], slotscan_req: vec![], real_req: vec![] };
             for (i, k) in kinds.iter().enumerate() {
                 case.esc_req.push(reqs.len());
                 reqs.push(format!("esc {shell} {} {}", slot_name(shell, *k), hex(texts[i].as_bytes())));
@@ -127,6 +129,28 @@ pub fn run(o: &Opts) -> Report {
                     reqs.push(format!("scan {shell} {}", hex(s_m[..from + p].as_bytes())));
                     from += p + markers[i].len();
                 }
+            }
+            // what the REAL script holds in place of each marker: align the fixed segments of the marker script in the adversarial one
+            {
+                let mut occ: Vec<(usize, usize)> = vec![]; // (position in s_m, slot)
+                for i in 0..kinds.len() { let mut from = 0; while let Some(p) = case.s_m[from..].find(markers[i].as_str()) { occ.push((from + p, i)); from += p + markers[i].len(); } }
+                occ.sort();
+                let (mut pm, mut pa) = (0usize, 0usize); let mut aligned = true;
+                for (k, (pos, i)) in occ.iter().enumerate() {
+                    let seg = &case.s_m[pm..*pos];
+                    if !case.s_a[pa..].starts_with(seg) { aligned = false; break; }
+                    pa += seg.len(); pm = pos + markers[*i].len();
+                    let next_seg_end = occ.get(k + 1).map(|x| x.0).unwrap_or(case.s_m.len());
+                    let next_seg = &case.s_m[pm..next_seg_end];
+                    // the fixed text after the marker: the shortest stretch that brings it back (first occurrence of a non-empty next segment)
+                    let probe = &next_seg[..next_seg.len().min(24)];
+                    let Some(q) = (if probe.is_empty() { Some(case.s_a.len() - pa) } else { case.s_a[pa..].find(probe) }) else { aligned = false; break; };
+                    let real = case.s_a[pa..pa + q].to_string();
+                    case.real_req.push((*i, real.clone(), reqs.len()));
+                    reqs.push(format!("scanfrom {shell} {} {}", slot_name(shell, kinds[*i]), if real.is_empty() { "-".to_string() } else { hex(real.as_bytes()) }));
+                    pa += q;
+                }
+                if !aligned { rep.count("scripts_not_alignable"); }
             }
             cases.push(case);
         }
@@ -150,6 +174,16 @@ pub fn run(o: &Opts) -> Report {
                 let ctx = model[c.slotscan_req[*i]].split("ctx=").nth(1).unwrap_or("?").to_string();
                 if model[*r] != ctx { rep.disagree("scan", &format!("{} slot {i} ({:?})", c.key, c.kinds[*i]), &format!("declared context {ctx}"), &format!("scanner state at the marker: {}", model[*r])); }
                 rep.count("marker_contexts_checked");
+            }
+            // (3') the text the REAL script holds in each slot stays inside its literal (scanner run on the real bytes)
+            for (i, real, r) in &c.real_req {
+                let out = &model[*r];
+                let ctx = out.split("ctx=").nth(1).unwrap_or("?");
+                if !out.starts_with(&format!("{ctx} 0 ")) {
+                    rep.oracle_fail(&format!("text-leaves-literal:{}/{}", c.shell, slot_name(c.shell, c.kinds[*i])), &c.key,
+                        &format!("text {:?} appears in the real script as {real:?}: scanner {out}", c.texts[*i]));
+                }
+                rep.count("real_slot_texts_scanned");
             }
             // (3) the text stays inside its literal (instance of the theorem; fails only in unsound slots)
             for (i, k) in c.kinds.iter().enumerate() {
